@@ -1118,6 +1118,42 @@ pub fn run_c16(rep: &mut Report) {
         focus.extend(NUMPAD_DIGITS.iter().map(|(k, _, _)| *k));
         through_decoder("C16", rep, &cube, &focus, &acc);
         concurrent_objects(rep, &cube, 16);
+        // what a caller sees of a decoded key is its value under `==`: a raw key must not compare equal to any character
+        // (nor to another raw key), or a character-less key "types" that character for every caller that compares
+        {
+            let mut n = 0u64;
+            for k in cube.keys.iter() {
+                let r = guarded(|| {
+                    let raw = DecodedKey::RawKey(*k);
+                    let mut bad: Option<String> = None;
+                    for c in (0u32..0x3000).filter_map(char::from_u32) {
+                        if raw == DecodedKey::Unicode(c) || DecodedKey::Unicode(c) == raw {
+                            bad = Some(crate::keys::char_str(c));
+                            break;
+                        }
+                    }
+                    if bad.is_none() {
+                        for k2 in cube.keys.iter() {
+                            if (raw == DecodedKey::RawKey(*k2)) != (k == k2) {
+                                bad = Some(format!("Raw({:?})", k2));
+                                break;
+                            }
+                        }
+                    }
+                    bad
+                });
+                n += 0x3000 + cube.keys.len() as u64;
+                if let Ok(Some(other)) = r {
+                    rep.violate(
+                        format!("C16|equality|key={:?}|equal-to={}", k, other),
+                        format!("DecodedKey::RawKey({:?}) == {} is true: for every caller that compares decoded keys, this key is indistinguishable from that value", k, other),
+                        J::obj().with("kind", J::s("decoded-key-equality")).with("key", J::s(kname(*k))).with("other", J::s(other)),
+                    );
+                }
+            }
+            rep.evaluations += n;
+            rep.count("decoded_key_equality_comparisons", n);
+        }
     }
     rep.count("raw_key_outputs_examined", raw_outputs);
     rep.count("charless_keys_required_raw", CHARLESS.len() as u64);
@@ -1276,6 +1312,10 @@ fn c17_hidden_state_probe(rep: &mut Report, cube: &Cube) {
     }
 }
 
+fn dk_enc_opt(d: &Option<DecodedKey>) -> Option<u32> {
+    d.clone().map(dk_enc)
+}
+
 pub fn run_c17(rep: &mut Report) {
     let cube = cube_common("C17", rep);
     let mut distinct = 0u64;
@@ -1362,6 +1402,59 @@ pub fn run_c17(rep: &mut Report) {
                 }
             }
         }
+    }
+    // ---- the same with a key held (typematic repeats) across the switch, and with n change_layout calls on the way: the
+    //      very next press must be the new variant's answer, whatever was remembered about the key
+    {
+        let sample = [KeyCode::Q, KeyCode::A, KeyCode::Y, KeyCode::Z, KeyCode::M, KeyCode::Key2, KeyCode::Oem8, KeyCode::Oem5, KeyCode::Oem7, KeyCode::Oem12, KeyCode::Oem13, KeyCode::NumpadPeriod];
+        let special = (rep.seed as usize) % 10;
+        let mut n_checked = 0u64;
+        for a in 0..10usize {
+            for b in 0..10usize {
+                if a == b {
+                    continue;
+                }
+                let ns: &[usize] = if b == special || a == special { &[1, 2, 255, 256, 257, 65_535, 65_536, 65_537] } else { &[1, 256] };
+                let bare = bare_dyn(b);
+                for n in ns {
+                    // the long switch runs for a few keys only
+                    for key in sample.iter().take(if *n > 1000 { 3 } else { sample.len() }) {
+                        for shifted in [false, true] {
+                            let r = guarded(|| {
+                                let mut dec = EventDecoder::new(any_value(a), HandleControl::Ignore);
+                                if shifted {
+                                    let _ = dec.process_keyevent(KeyEvent::new(KeyCode::RAltGr, KeyState::Down));
+                                }
+                                for _ in 0..4 {
+                                    let _ = dec.process_keyevent(KeyEvent::new(*key, KeyState::Down));
+                                }
+                                for i in 0..*n {
+                                    dec.change_layout(any_value(if i + 1 == *n { b } else { (a + 1 + i) % 10 }));
+                                }
+                                dec.process_keyevent(KeyEvent::new(*key, KeyState::Down))
+                            });
+                            n_checked += 1;
+                            rep.evaluations += 1;
+                            let m = if shifted { B_NUMLOCK | B_RALT } else { B_NUMLOCK };
+                            let want = bare.map_keycode(*key, &mods_from_bits(m), HandleControl::Ignore);
+                            if let Ok(got) = r {
+                                if dk_enc_opt(&got) != Some(dk_enc(want.clone())) {
+                                    rep.violate(
+                                        format!("C17|switch|{}→{}|key={:?}|want={}|got={}", layout_name(a), layout_name(b), key, dk_str(&want), odk_str(&got)),
+                                        format!(
+                                            "EventDecoder<AnyLayout>: {:?} held on {} (four makes{}), then {} change_layout call(s) ending on {}: the next make gives {} but {} itself gives {}",
+                                            key, layout_name(a), if shifted { ", AltGr held" } else { "" }, n, layout_name(b), odk_str(&got), layout_name(b), dk_str(&want)
+                                        ),
+                                        J::obj().with("kind", J::s("anylayout-switch")).with("from", J::s(layout_name(a))).with("to", J::s(layout_name(b))).with("key", J::s(kname(*key))).with("switches", J::u(*n as u64)),
+                                    );
+                                }
+                            }
+                        }
+                    }
+                }
+            }
+        }
+        rep.count("held_key_across_variant_switches", n_checked);
     }
     // by-reference wrapper through a Keyboard as well
     for li in 0..10 {
